@@ -2,9 +2,10 @@
 from __future__ import annotations
 
 import ast
+import re
 from typing import Any
 
-from ..astutil import bool_atoms, call_name, cfg_of, constructs_error, error_names, norm, returns_error, short, truth_table, where
+from ..astutil import Locals, bool_atoms, call_name, cfg_of, constructs_error, error_names, norm, returns_error, short, truth_table, where
 from ..cfg import CFG, walk_own
 from ..core import PKG, Report
 from ..domain import RAW, RAW_NONSTR, UNKNOWN, is_esc
@@ -97,9 +98,9 @@ def run(rep: Report, ctx: Any) -> str:
             rep.ok("R13.2", key + "::no-default-kind", "returns None", "lists take no default", nontrivial=False)
             continue
         if c.name == "UnionProperty":
-            ok = isinstance(last, ast.Return) and norm(last.value) == "value_or_error" and any(
-                isinstance(n, (ast.Assign, ast.AnnAssign)) and n.value is not None and constructs_error(n.value) and
-                norm(n.targets[0] if isinstance(n, ast.Assign) else n.target) == "value_or_error" for n in ast.walk(cv.node))
+            # the fall-through returns a local that starts out as an error (any spelling) and is replaced only by an accepting member
+            ok = isinstance(last, ast.Return) and isinstance(last.value, ast.Name) and any(
+                constructs_error(v_) for v_ in Locals(cv.node).values_of(last.value.id))
             rep.check(ok, "R13.2", key + "::fallthrough", "a union default that no member accepts is not an error", where(cv, cv.node))
             continue
         ok = isinstance(last, ast.Return) and (constructs_error(last.value) or (c.name == "ConstProperty" and norm(last.value) == "value"))
@@ -114,7 +115,7 @@ def run(rep: Report, ctx: Any) -> str:
                 typed = any("isinstance(" in g or " in self.values" in g or "==" in g for g in guards)
                 rep.check(typed, "R13.2", key + f"::accept[{norm(n.value)[:40]}]", "a default is accepted without any type or membership test",
                           where(cv, n), lhs=guards, rhs="under isinstance / membership / equality test")
-                if any("isinstance(converted, int)" in g or "isinstance(value, int)" in g for g in guards) and c.name in ("IntProperty", "FloatProperty"):
+                if any(re.search(r"isinstance\(\w+, int\)", g) for g in guards) and c.name in ("IntProperty", "FloatProperty"):
                     rep.check(any("not isinstance" in g and "bool" in g for g in guards), "R13.2", key + "::bool-excluded",
                               "booleans are accepted where an integer is expected (True == 1)", where(cv, n), lhs=guards,
                               rhs="and not isinstance(value, bool)")
@@ -143,7 +144,10 @@ def run(rep: Report, ctx: Any) -> str:
 
     # ---- R13.4 ------------------------------------------------------------------------------------------------------------------
     pfr = ix.func("properties._property_from_ref")
-    conv = [n for n in ast.walk(pfr.node) if isinstance(n, ast.Call) and call_name(n) == "existing.convert_value"]
+    pl = Locals(pfr.node)
+    existing = set(pl.bound_from(lambda v: v.startswith("schemas.classes_by_reference.get("), "assign"))
+    conv = [n for n in ast.walk(pfr.node) if isinstance(n, ast.Call) and isinstance(n.func, ast.Attribute) and n.func.attr == "convert_value"
+            and norm(n.func.value) in existing and n.args and norm(n.args[0]) == "parent.default"]
     rep.check(bool(conv), "R13.4", "_property_from_ref::converts-with-referenced-class",
               "the wrapper's default is not converted by the referenced class", where(pfr, pfr.node))
     for n in ast.walk(pfr.node):
@@ -159,8 +163,11 @@ def run(rep: Report, ctx: Any) -> str:
                       "would be dropped unvalidated)", where(pfr, n), lhs=norm(n.test), rhs="skipped only when parent is None")
     cfg = cfg_of(pfr, cfgs)
     errs = error_names(pfr.node)
-    chk = [s for s in cfg.stmts() if isinstance(s, ast.If) and "isinstance(default, PropertyError)" in norm(s.test)]
-    ev = [s for s in cfg.stmts() if "evolve(" in norm(s) and "default=default" in norm(s)]
+    converted = {nm for nm in pl.defs if any(any(x in conv for x in ast.walk(v_)) for v_ in pl.values_of(nm))}
+    chk = [s for s in cfg.stmts() if isinstance(s, ast.If) and any(norm(s.test) == f"isinstance({d_}, PropertyError)" for d_ in converted)
+           and any(isinstance(r_, ast.Return) for r_ in s.body)]
+    ev = [s for s in cfg.stmts() for c_ in walk_own(s) if isinstance(c_, ast.Call) and call_name(c_).endswith("evolve")
+          and any(k.arg == "default" and norm(k.value) in converted for k in c_.keywords)]
     rep.check(bool(chk) and bool(ev) and all(cfg.is_dominated_by(e, lambda n: n in chk) for e in ev), "R13.4",
               "_property_from_ref::error-before-evolve", "an invalid default next to a $ref is not returned as an error before the property "
               "is built", where(pfr, pfr.node))
@@ -170,27 +177,33 @@ def run(rep: Report, ctx: Any) -> str:
         if isinstance(n, ast.Call) and call_name(n).endswith("evolve"):
             for kw in n.keywords:
                 if kw.arg == "default":
-                    names = {x.id for x in ast.walk(kw.value) if isinstance(x, ast.Name)} - {"current"}
+                    acc = norm(n.args[0]) if n.args else ""
+                    over = {norm(lp.target) for lp in ast.walk(mca.node) if isinstance(lp, ast.For) and norm(lp.iter) == "extend_with"}
+                    names = {x.id for x in ast.walk(kw.value) if isinstance(x, ast.Name)} - {acc}
                     bad = []
-                    for nm in names:
+                    for nm in sorted(names):
                         defs = [a for a in ast.walk(mca.node) if isinstance(a, ast.Assign) and any(norm(t) == nm for t in a.targets)]
+                        if nm in over or not defs:
+                            bad.append(f"{nm} (not converted)")
                         for a in defs:
                             v = norm(a.value)
-                            if not (v == "None" or "current.convert_value(" in v):
+                            if not (v == "None" or f"{acc}.convert_value(" in v):
                                 bad.append(f"{nm} = {v}")
                     rep.check(not bad, "R13.4", "_merge_common_attributes::default-from-merged-class",
                               f"a default enters the merged property without being converted by the merged class: {bad}", where(mca, n),
                               lhs=bad, rhs="current.convert_value(override.default.raw_value) | current.default")
-    # conversion error returned
-    chk2 = [s for s in ast.walk(mca.node) if isinstance(s, ast.If) and "isinstance(override_default, PropertyError)" in norm(s.test)]
-    rep.check(bool(chk2), "R13.4", "_merge_common_attributes::error-returned", "an override default invalid for the merged type is not reported",
-              where(mca, mca.node))
+                    # conversion error returned
+                    chk2 = [s for s in ast.walk(mca.node) if isinstance(s, ast.If) and any(norm(s.test) == f"isinstance({nm}, PropertyError)" for nm in names)
+                            and any(isinstance(r_, ast.Return) for r_ in s.body)]
+                    rep.check(bool(chk2), "R13.4", "_merge_common_attributes::error-returned", "an override default invalid for the merged type is not reported",
+                              where(mca, mca.node))
 
     # ---- R13.5 ----------------------------------------------------------------------------------------------------------------------
     ts = ix.cls("PropertyProtocol").methods.get("to_string")
     ok = any(isinstance(n, ast.If) and "self.default is not None" in norm(n.test) and "self.default.python_code" in norm(n) for n in ast.walk(ts.node))
     rep.check(ok, "R13.5", "PropertyProtocol.to_string::prints-python_code", "the declaration does not print default.python_code", where(ts, ts.node))
-    n_ts = sum(1 for e in ji.emissions.values() if "to_string()" in e.expr and e.hole == "default")
+    dflt = set(Locals(ts.node).bound_from(lambda v: v == "self.default.python_code", "assign"))
+    n_ts = sum(1 for e in ji.emissions.values() if "to_string()" in e.expr and e.hole in dflt)
     rep.floor("to_string_default_emissions", n_ts, 3)
     rep.not_decided.append("value equality of the evaluated default with the document's value; leniency inside accepting branches")
     return LEVEL
